@@ -39,7 +39,7 @@ def ops_strategy():
     sref = st.sampled_from(["p-bidi0", "p-bidi0", "p-bidi1", "p-uni0", "p-uni1", "s-bidi0", "p-bidi-last", "p-bidi-over", "p-uni-last", "p-uni-over"])
     stream = st.tuples(st.just("stream"), sref, which, rel, st.sampled_from([0, 1, 1, 10, 500, 1200]), st.booleans())
     reset = st.tuples(st.just("reset"), sref, which, rel)
-    simple = st.sampled_from([("ack",), ("ack",), ("timer",), ("sut_open",), ("sut_write",), ("challenges", 40), ("challenges", 500), ("crypto_far",), ("crypto_grow",), ("crypto_beyond",), ("ncid_churn",), ("ncid_churn_quiet",), ("ncid_rotate", 1), ("ncid_rotate", 12), ("dup_last",), ("never_finished", 30)])
+    simple = st.sampled_from([("ack",), ("ack",), ("timer",), ("sut_open",), ("sut_write",), ("challenges", 40), ("challenges", 500), ("challenges_offpath", 40), ("challenges_offpath", 200), ("crypto_far",), ("crypto_grow",), ("crypto_beyond",), ("ncid_churn",), ("ncid_churn_quiet",), ("ncid_rotate", 1), ("ncid_rotate", 12), ("dup_last",), ("never_finished", 30)])
     # an empty FIN at offset 0 fixes the final size at 0 (a falsy value): whatever follows on that stream exceeds it
     fin0 = st.tuples(st.just("stream"), st.sampled_from(["p-bidi0", "p-bidi0", "p-bidi1", "p-uni0"]), st.just("stream"), st.just("zero"), st.just(0), st.just(True))
     follow = st.tuples(st.just("stream"), st.sampled_from(["p-bidi0", "p-bidi0", "p-bidi1", "p-uni0"]), st.just("stream"), st.sampled_from(["small", "half", "lim"]), st.sampled_from([1, 10]), st.booleans())
@@ -336,6 +336,15 @@ def run_history(ctx, case):
                     sut_call("receive_datagram", tk.send_frames, [{"name": "path_challenge", "data": i.to_bytes(8, "big")}], ("7.7.7.%d" % (i % 3), 7) if role == "server" and i % 5 == 4 else None)
                     if i % 16 == 0:
                         bounds(("challenges", i))
+            elif kind == "challenges_offpath":
+                # probing packets (PATH_CHALLENGE only) from one other address: that path is never promoted, its queue must stay bounded all the same
+                for i in range(op[1]):
+                    if dead[0]:
+                        break
+                    sut_call("receive_datagram", tk.send_frames, [{"name": "path_challenge", "data": (0x5000 + i).to_bytes(8, "big")}], ("7.7.8.8", 78))
+                    if i % 8 == 0:
+                        bounds(("challenges_offpath", i))
+                bounds(("challenges_offpath", op[1]))
             elif kind == "crypto_far":
                 sut_call("receive_datagram", tk.send_frames, [{"name": "crypto", "offset": 524288 - 10, "data": bytes(5)}])
             elif kind == "crypto_grow":
